@@ -327,36 +327,88 @@ func c07RefNode(rules []c07Rule, m c07Meta) (string, bool) {
 	return c07RefInternal(rules, "node", m)
 }
 
+func c07InternalKeys(fn string) []string {
+	switch fn {
+	case "sub":
+		return []string{"", "tag", "tag_regex", "regex", "link_keyword", "link_regex"}
+	case "node":
+		return []string{"", "name", "name_keyword", "name_regex", "link_keyword", "link_regex"}
+	default:
+		return []string{"", "subtag", "subtag_regex", "regex", "name", "name_keyword", "name_regex", "link_keyword", "link_regex"}
+	}
+}
+
+func c07GenInternalVal(t *rapid.T, fn, key string) string {
+	switch {
+	case strings.HasSuffix(key, "regex"):
+		return rapid.SampledFrom([]string{"^hk-", "^my_", "sub[0-9]$", `\.example`, "^us-1$", "provider", "^$", "o"}).Draw(t, "irx")
+	case key == "link_keyword":
+		return rapid.SampledFrom([]string{"special-provider", "hk.example", "://", "8388", "nosuch"}).Draw(t, "ilk")
+	case key == "name_keyword":
+		return rapid.SampledFrom([]string{"hk", "-0", "node", "zz"}).Draw(t, "ink")
+	case key == "name" || (key == "" && fn == "node"):
+		return rapid.SampledFrom(c07NodeNames).Draw(t, "iname")
+	default:
+		return rapid.SampledFrom(c07SubTags).Draw(t, "itag")
+	}
+}
+
+// One selector call. Values inside one call are alternatives (whatever their key);
+// '!' negates the whole call. A third of the calls use 2-3 DIFFERENT keys with 1-3
+// values each, half of those negated.
 func c07GenInternalAtom(t *rapid.T, fn string) c07Atom {
+	keys := c07InternalKeys(fn)
+	if rapid.IntRange(0, 2).Draw(t, "imixed") == 0 {
+		a := c07Atom{Fn: fn, Not: rapid.Bool().Draw(t, "imnot")}
+		nk := rapid.IntRange(2, 3).Draw(t, "inkeys")
+		perm := rapid.Permutation(keys).Draw(t, "ikeyperm")
+		var ps []c07Param
+		for _, key := range perm[:nk] {
+			nv := rapid.IntRange(1, 3).Draw(t, "invals")
+			for j := 0; j < nv; j++ {
+				ps = append(ps, c07Param{key, c07GenInternalVal(t, fn, key)})
+			}
+		}
+		// the values of different keys may be interleaved in the call
+		a.Params = rapid.Permutation(ps).Draw(t, "iparamorder")
+		return a
+	}
 	a := c07Atom{Fn: fn, Not: rapid.IntRange(0, 4).Draw(t, "inot") == 0}
 	n := rapid.IntRange(1, 2).Draw(t, "inparam")
 	for i := 0; i < n; i++ {
-		var keys []string
-		switch fn {
-		case "sub":
-			keys = []string{"", "tag", "tag_regex", "regex", "link_keyword", "link_regex"}
-		case "node":
-			keys = []string{"", "name", "name_keyword", "name_regex", "link_keyword", "link_regex"}
-		default:
-			keys = []string{"", "subtag", "subtag_regex", "regex", "name", "name_keyword", "name_regex", "link_keyword", "link_regex"}
-		}
 		key := rapid.SampledFrom(keys).Draw(t, "ikey")
-		var val string
-		switch {
-		case strings.HasSuffix(key, "regex"):
-			val = rapid.SampledFrom([]string{"^hk-", "^my_", "sub[0-9]$", `\.example`, "^us-1$", "provider", "^$", "o"}).Draw(t, "irx")
-		case key == "link_keyword":
-			val = rapid.SampledFrom([]string{"special-provider", "hk.example", "://", "8388", "nosuch"}).Draw(t, "ilk")
-		case key == "name_keyword":
-			val = rapid.SampledFrom([]string{"hk", "-0", "node", "zz"}).Draw(t, "ink")
-		case key == "name" || (key == "" && fn == "node"):
-			val = rapid.SampledFrom(c07NodeNames).Draw(t, "iname")
-		default:
-			val = rapid.SampledFrom(c07SubTags).Draw(t, "itag")
-		}
-		a.Params = append(a.Params, c07Param{key, val})
+		a.Params = append(a.Params, c07Param{key, c07GenInternalVal(t, fn, key)})
 	}
 	return a
+}
+
+// c07PartialNegHit reports whether some negated selector call of kind fn has, for this
+// input, at least one key group that hits and at least one that does not (the inputs
+// on which "!(A || B)" and "!A || !B" differ).
+func c07PartialNegHit(rules []c07Rule, fn string, m c07Meta) bool {
+	for _, r := range rules {
+		if len(r.Atoms) == 0 || r.Atoms[0].Fn != fn {
+			continue
+		}
+		for _, a := range r.Atoms {
+			if !a.Not {
+				continue
+			}
+			hit := map[string]bool{}
+			for _, p := range a.Params {
+				hit[p.Key] = hit[p.Key] || c07RefInternalParam(fn, p, m)
+			}
+			some, all := false, true
+			for _, h := range hit {
+				some = some || h
+				all = all && h
+			}
+			if len(hit) >= 2 && some && !all {
+				return true
+			}
+		}
+	}
+	return false
 }
 
 // ---------------------------------------------------------------- the check
@@ -588,7 +640,7 @@ func TestC07_Router(t *testing.T) {
 			p.Req = append(p.Req[:i:i], append([]c07Rule{r}, p.Req[i:]...)...)
 		}
 		// internal selector rules
-		ni := rapid.IntRange(0, 4).Draw(t, "ninternal")
+		ni := rapid.IntRange(0, 5).Draw(t, "ninternal")
 		for k := 0; k < ni; k++ {
 			fn := rapid.SampledFrom([]string{"sub", "node", "subnode"}).Draw(t, "ifn")
 			r := c07Rule{Out: rapid.SampledFrom(p.Upstreams).Draw(t, "iout").Tag}
@@ -847,6 +899,9 @@ func TestC07_Router(t *testing.T) {
 			gotS, gokS := router.MatchSubscriptionUpstream(sm.SubTag + ":" + sm.Link)
 			if okS != gokS || wantS != gotS {
 				t.Fatalf("MatchSubscriptionUpstream(%s:%s) = (%q,%v), first matching sub rule says (%q,%v)\n%s", sm.SubTag, sm.Link, gotS, gokS, wantS, okS, p)
+			}
+			if c07PartialNegHit(p.Req, "node", m) || (m.SubTag != "" && c07PartialNegHit(p.Req, "subnode", m)) || c07PartialNegHit(p.Req, "sub", sm) {
+				classes["negated_mixed_key_selector_partially_hit"] = true
 			}
 			if okN {
 				classes["node_selector_hit"] = true
